@@ -14,6 +14,25 @@ Theorem C05_delete_exact :
 Proof. exact delete_existing. Qed.
 Print Assumptions C05_delete_exact.
 
+(* recursively=True: after the addressed node is removed, the token-boundary ancestors (the paths Q k of
+   the token prefixes, longest first) are visited in turn and each one that is an empty dictionary at that
+   moment is removed (prune_list); nothing else changes.  The ancestors' paths are the ones they have in the
+   original tree: deletions below an ancestor do not move it. *)
+Theorem C05_delete_recursively :
+  forall fuel root x p u,
+  tokenize x <> [] -> walk root (tokenize x) p u -> 2 * length (tokenize x) <= fuel ->
+  exists qs,
+    Forall2 (Q root (tokenize x)) (rev (seq 1 (length (tokenize x) - 1))) qs /\
+    delete fuel root x true = (prune_list (delete_at root p) qs, None).
+Proof. exact delete_recursive_walk. Qed.
+Print Assumptions C05_delete_recursively.
+
+(* when no visited ancestor is (or becomes) an empty dictionary, recursively changes nothing more *)
+Theorem C05_prune_noop : forall t qs,
+  Forall (fun q => forall c, resolve t q <> Some (Dict c [])) qs -> prune_list t qs = t.
+Proof. exact prune_list_noop. Qed.
+Print Assumptions C05_prune_noop.
+
 (* pop returns the value lookup returns and has the effect of delete *)
 Theorem C05_pop_existing :
   forall root x p, keys_ok root -> has_path_char x = true -> no_qmark x -> tokenize x <> [] ->
